@@ -5,6 +5,7 @@ def step (line : String) : String :=
   match line.trimAscii.toString.splitOn " " with
   | "ffilter" :: args => handleFFilter args
   | "ffapply" :: args => handleFFApply args
+  | "ffselect" :: args => handleFFSelect args
   | "fflines" :: args => handleFFLines args
   | "ffsrc" :: args => handleFFSrc args
   | _ => "bad-op"
